@@ -75,7 +75,14 @@ func (o *sorterOracle) Call(ip *absint.Interp, site ssa.CallInstruction, args []
 		}
 		return nil, true
 	}
-	if core.IsCallTo(com, o.sortFn) && o.sortFnOpaque {
+	if core.IsExtCall(com, "sort.Sort") || core.IsExtCall(com, "sort.Stable") {
+		// the standard sorts over a Len/Less/Swap value: a stable insertion sort under the value's own interpreted
+		// methods; Less must be a strict order on the positions (irreflexive, asymmetric)
+		t := &tbl{c: o.c, sortStrictBad: &o.cmpBad}
+		t.sortInterface(ip, args[0])
+		return nil, true
+	}
+	if core.IsCallTo(com, o.sortFn) {
 		l, ok := args[0].(*absint.List)
 		if !ok {
 			return nil, false
@@ -91,6 +98,9 @@ func (o *sorterOracle) Call(ip *absint.Interp, site ssa.CallInstruction, args []
 			for _, b := range l.Elems {
 				o.checkLess(a, b, less(a, b))
 			}
+		}
+		if !o.sortFnOpaque {
+			return nil, false // interpret its body down to the standard library's sort
 		}
 		// stable insertion sort in place under the interpreted comparator
 		for i := 1; i < len(l.Elems); i++ {
@@ -224,47 +234,6 @@ func firstN(s []string, n int) []string {
 	return s
 }
 
-// sort2Oracle intercepts sort.Slice and drives the index closure.
-type sort2Oracle struct {
-	absint.BaseOracle
-	calls   int
-	stable  bool
-	problem string
-	lessTok *absint.Tok
-	seen    []string
-}
-
-func (o *sort2Oracle) Call(ip *absint.Interp, site ssa.CallInstruction, args []absint.Value) (absint.Value, bool) {
-	com := site.Common()
-	if core.IsExtCall(com, "sort.Slice") || core.IsExtCall(com, "sort.SliceStable") {
-		o.calls++
-		l, ok := args[0].(*absint.List)
-		if !ok || len(l.Elems) != 3 {
-			o.problem = "sort.Slice is not given the caller's slice"
-			return nil, true
-		}
-		for _, ij := range [][2]int{{0, 1}, {1, 0}, {2, 1}, {0, 2}} {
-			want := ij[0] < ij[1] // our less token answers by token index
-			got, ok := ip.CallValue(args[1], absint.Int(ij[0]), absint.Int(ij[1])).(absint.Bool)
-			if !ok || bool(got) != want {
-				o.problem = fmt.Sprintf("index comparator(%d,%d) does not answer less(x[%d],x[%d])", ij[0], ij[1], ij[0], ij[1])
-			}
-		}
-		return nil, true
-	}
-	if ip.CurFn == absint.Value(o.lessTok) {
-		a, ok1 := args[0].(*absint.Tok)
-		b, ok2 := args[1].(*absint.Tok)
-		if !ok1 || !ok2 {
-			o.problem = "element comparator called with non-elements"
-			return absint.Bool(false), true
-		}
-		o.seen = append(o.seen, a.ID+"<"+b.ID)
-		return absint.Bool(a.ID < b.ID), true
-	}
-	return nil, false
-}
-
 func c12R4(c *core.Ctx, r *core.Report, sortFn *ssa.Function) { c12R4On(c, r, sortFn, "C12.R4") }
 
 func c12R4On(c *core.Ctx, r *core.Report, sortFn *ssa.Function, rule string) {
@@ -272,7 +241,17 @@ func c12R4On(c *core.Ctx, r *core.Report, sortFn *ssa.Function, rule string) {
 	var insts []*ssa.Function
 	for fn := range c.AllFns {
 		if fn.Origin() == sortFn && fn.Blocks != nil {
-			insts = append(insts, fn)
+			// (an instance inside another generic body still has a type parameter for an argument: the concrete
+			// instances of that body are in the list as well)
+			open := false
+			for _, ta := range fn.TypeArgs() {
+				if _, isTP := ta.(*types.TypeParam); isTP {
+					open = true
+				}
+			}
+			if !open {
+				insts = append(insts, fn)
+			}
 		}
 	}
 	sort.Slice(insts, func(i, j int) bool { return insts[i].String() < insts[j].String() })
@@ -280,24 +259,62 @@ func c12R4On(c *core.Ctx, r *core.Report, sortFn *ssa.Function, rule string) {
 		return
 	}
 	for _, inst := range insts {
-		orc := &sort2Oracle{lessTok: absint.NewTok("less", "func")}
-		ip := absint.New(orc)
-		ip.IsLog = core.IsLogCall
-		ip.InScope = c.InScope
-		x := &absint.List{Elems: []absint.Value{absint.NewTok("e0", "e"), absint.NewTok("e1", "e"), absint.NewTok("e2", "e")}}
-		out := ip.Run(inst, []absint.Value{x, orc.lessTok}, nil)
+		// decided by interpretation: on every permutation of three elements the caller's slice ends up ordered by the
+		// comparator it was given (the standard library's sorts are modelled as a stable insertion sort under the
+		// interpreted comparator / Len-Less-Swap methods)
 		cons := "sort2.Slice[" + typeArgs(inst) + "]"
+		bad, undec, runs := "", "", 0
+		var seen []string
+		for _, perm := range [][]int{{0, 1, 2}, {0, 2, 1}, {1, 0, 2}, {1, 2, 0}, {2, 0, 1}, {2, 1, 0}, {1, 0}, {0}, {}} {
+			t := newTbl(c)
+			lessTok := absint.NewTok("less", "func")
+			t.dynamic = func(ip *absint.Interp, fn absint.Value, a []absint.Value) (absint.Value, bool) {
+				if fn != absint.Value(lessTok) || len(a) != 2 {
+					return nil, false
+				}
+				x, ok1 := a[0].(*absint.Tok)
+				y, ok2 := a[1].(*absint.Tok)
+				if !ok1 || !ok2 {
+					panic(&absint.Undecided{Msg: "element comparator called with non-elements"})
+				}
+				seen = append(seen, x.ID+"<"+y.ID)
+				return absint.Bool(x.ID < y.ID), true
+			}
+			ip := absint.New(t)
+			ip.IsLog = core.IsLogCall
+			ip.InScope = c.InScope
+			x := &absint.List{IsNil: len(perm) == 0}
+			for _, i := range perm {
+				x.Elems = append(x.Elems, absint.NewTok(fmt.Sprintf("e%d", i), "e"))
+			}
+			before := absint.Show(x)
+			out := ip.Run(inst, []absint.Value{x, lessTok}, nil)
+			runs++
+			if out.Undecided != nil {
+				undec = out.Undecided.Msg
+				break
+			}
+			if out.Panic != nil {
+				bad = before + " => panic: " + out.Panic.Msg
+				break
+			}
+			ok := len(x.Elems) == len(perm)
+			for i := 0; ok && i < len(x.Elems); i++ {
+				e, isTok := x.Elems[i].(*absint.Tok)
+				ok = isTok && e.ID == fmt.Sprintf("e%d", i)
+			}
+			if !ok {
+				bad = before + " is left as " + absint.Show(x) + ", not ordered by the comparator"
+				break
+			}
+		}
 		switch {
-		case out.Undecided != nil:
-			r.Undecided(rule, cons, c.FnPos(inst), out.Undecided.Msg)
-		case out.Panic != nil:
-			r.Fail(rule, cons, c.FnPos(inst), "panics: "+out.Panic.Msg)
-		case orc.calls != 1:
-			r.Fail(rule, cons, c.FnPos(inst), fmt.Sprintf("delegates to sort.Slice %d times (want exactly 1)", orc.calls))
-		case orc.problem != "":
-			r.Fail(rule, cons, c.FnPos(inst), orc.problem)
+		case undec != "":
+			r.Undecided(rule, cons, c.FnPos(inst), undec)
+		case bad != "":
+			r.Fail(rule, cons, c.FnPos(inst), bad)
 		default:
-			r.Hold(rule, cons, c.FnPos(inst), "delegates once to sort.Slice with less(x[i],x[j]) for the closure's (i,j); comparisons seen: "+strings.Join(orc.seen, " "))
+			r.Hold(rule, cons, c.FnPos(inst), fmt.Sprintf("leaves the caller's slice ordered by the given element comparator on every permutation of up to three elements (%d runs); comparisons seen: %s", runs, strings.Join(firstN(seen, 12), " ")))
 		}
 	}
 }
@@ -465,7 +482,8 @@ func c12R5(c *core.Ctx, r *core.Report, ro *core.Roles, sorter *ssa.Function) {
 		return
 	}
 	for fr := range fields {
-		r.Check(fr.Owner == bs.recv && fr.Name == bs.dispatch, "C12.R5", "dispatch-list:"+fr.Owner.Obj().Name()+"."+fr.Name, c.FnPos(bs.fn),
+		_, isIndex := derivedDispatchLists(c)[fr.Name]
+		r.Check(fr.Owner == bs.recv && (fr.Name == bs.dispatch || isIndex), "C12.R5", "dispatch-list:"+fr.Owner.Obj().Name()+"."+fr.Name, c.FnPos(bs.fn),
 			"every dispatch loop ranges over the one list the bootstrap routine fills in contract order ("+bs.recv.Obj().Name()+"."+bs.dispatch+")")
 	}
 	helpers := map[*ssa.Function]bool{}
